@@ -15,6 +15,14 @@ func VH_C20F() {
 	if lim > 0 {
 		vAssume(int64(d) < lim*int64(time.Hour) && int64(d) > -lim*int64(time.Hour))
 	}
+	if vParam("extremes", 0) == 1 {
+		// the ends of the int64 range and the neighbourhood of zero
+		const k = 1000
+		lo := vAnd(int64(d) >= -1<<63, int64(d) <= -1<<63+k)
+		hi := vAnd(int64(d) <= 1<<63-1, int64(d) >= 1<<63-1-k)
+		mid := vAnd(int64(d) >= -k, int64(d) <= k)
+		vAssume(vOr(lo, vOr(hi, mid)))
+	}
 	s := SmartDurationStringEx(d, frac)
 	vCover("C20F:formatted")
 	if vParam("roundtrip", 1) == 1 {
